@@ -236,7 +236,7 @@ func (x *Exec) generate(want func(name string) bool) []*FuncReport {
 			continue
 		}
 		name := shortPkg(k[:strings.Index(k, "::")]) + "." + k[strings.Index(k, "::")+2:]
-		if !want(name) {
+		if !want(name) || helperPkg(k[:strings.Index(k, "::")]) {
 			continue
 		}
 		for _, ic := range x.refinementTargets(fn) {
@@ -258,4 +258,9 @@ func (x *Exec) isIfaceContract(c *Contract) bool {
 
 func shortPkg(p string) string {
 	return filepath.Base(p)
+}
+
+// helperPkg: test-support and drawing packages of the repository; their types are not part of the library proper
+func helperPkg(path string) bool {
+	return strings.HasSuffix(path, "test") || strings.HasSuffix(path, "dot")
 }
